@@ -583,3 +583,97 @@ def render_documents(driver, docs):
         d['text'] = '\n'.join(lines) + '\n'
         texts.append(d['text'])
     return texts
+
+
+# ------------------------------------------------------------------ raw texts outside the abstract grammar
+LATE_HEADERS = ['**text', '**dynam', '**kern', '**recip', '**harm']
+
+
+def _raw_lines(adoc):
+    out = []
+    for row in adoc['rows']:
+        if row['kind'] == 'global':
+            out.append(('global', None, [row['text']]))
+        else:
+            out.append((row['rk'], row, [c.get('_text', c.get('text')) for c in row['cells']]))
+    return out
+
+
+def _raw_text(lines):
+    return ''.join('\t'.join(cs) + '\n' for cs in lines)
+
+
+def raw_variants(rng, adoc):
+    """texts the abstract generator cannot express, derived from a RENDERED abstract document (the harness has no grid oracle for them: they are
+    compared with the model, the Lean spine-path tracker and the Lean text specification of the export): a spine added by `*+` and opened by
+    a `**` cell below the first line, blank lines inside the score, a line shorter than the live spine paths, the exchange operator `*x`,
+    a `**` cell in the middle of a spine, a `*+` whose new spine is never opened.  Returns a list of (kind, text)."""
+    L = _raw_lines(adoc)
+    cellrows = [i for i, (rk, row, cs) in enumerate(L) if rk != 'global']
+    out = []
+    # (a) a spine added by `*+` in the last column, opened by a `**` cell on the next line, carried to the end
+    cand = [i for i in cellrows[1:] if L[i][0] in ('data', 'bar', 'interp')]
+    if cand:
+        r = rng.choice(cand)
+        h = rng.choice(LATE_HEADERS)
+        n = len(L[r][2])
+        lines = [cs for (_, _, cs) in L[:r]]
+        lines.append(['*'] * (n - 1) + ['*+'])
+        lines.append(['*'] * n + [h])
+        k = 0
+        alive = True
+        for rk, row, cs in L[r:]:
+            if rk == 'global' or not alive:
+                lines.append(list(cs)); continue
+            if not cs:
+                lines.append(list(cs)); continue
+            if rk == 'data':
+                k += 1
+                extra = ('4c' if k % 2 else '8r') if h == '**kern' else rng.choice(['la', 'li', 'p', 'f', '.', 'C:'])
+            elif rk == 'bar':
+                extra = cs[0]
+            elif all(c == '*-' for c in cs):
+                extra = '*-'; alive = False
+            else:
+                extra = '*'
+            lines.append(list(cs) + [extra])
+        out.append(('plus', _raw_text(lines)))
+    # (b) blank lines inside
+    lines = [cs for (_, _, cs) in L]
+    for _ in range(rng.randint(1, 3)):
+        lines.insert(rng.randint(0, len(lines)), [])
+    out.append(('blank', _raw_text(lines)))
+    # (c) a line shorter than the live spine paths
+    cand = [i for i in cellrows[1:] if len(L[i][2]) >= 2 and L[i][0] in ('data', 'interp', 'bar')]
+    if cand:
+        r = rng.choice(cand)
+        lines = [list(cs) for (_, _, cs) in L]
+        lines[r] = lines[r][:-1]
+        out.append(('short', _raw_text(lines)))
+    # (d) the exchange operator
+    cand = [i for i in cellrows[1:] if len(L[i][2]) >= 2 and L[i][0] == 'data']
+    if cand:
+        r = rng.choice(cand)
+        n = len(L[r][2])
+        j = rng.randrange(n - 1)
+        lines = [list(cs) for (_, _, cs) in L]
+        lines.insert(r, ['*x' if c in (j, j + 1) else '*' for c in range(n)])
+        out.append(('exchange', _raw_text(lines)))
+    # (e) a `**` cell in the middle of a spine (no `*+`)
+    cand = [i for i in cellrows[1:] if L[i][0] == 'data']
+    if cand:
+        r = rng.choice(cand)
+        lines = [list(cs) for (_, _, cs) in L]
+        lines[r][rng.randrange(len(lines[r]))] = rng.choice(LATE_HEADERS)
+        out.append(('late-header', _raw_text(lines)))
+    # (f) a `*+` whose new spine is never opened by a `**` cell
+    cand = [i for i in cellrows[1:] if L[i][0] in ('data', 'bar')]
+    if cand:
+        r = rng.choice(cand)
+        n = len(L[r][2])
+        lines = [list(cs) for (_, _, cs) in L[:r]]
+        lines.append(['*'] * (n - 1) + ['*+'])
+        for rk, row, cs in L[r:]:
+            lines.append(list(cs) if rk == 'global' or not cs else list(cs) + [cs[-1]])
+        out.append(('plus-unopened', _raw_text(lines)))
+    return out
